@@ -157,6 +157,63 @@ pub fn seam_shapes(report: &Report, tier: Tier, seed: u64) {
         }
         cases.fetch_add(2, Ordering::Relaxed);
     });
+    // boundary operands at the seam: widths the handshake can never reach through SHA-1 outputs
+    // (u and x all ones, zero, top bit only), keys/verifiers at 1, N-1, >= N, exponents 0, 1, all ones
+    let h20: Vec<[u8; 20]> = {
+        let mut top = [0u8; 20];
+        top[19] = 0x80;
+        let mut one = [0u8; 20];
+        one[0] = 1;
+        let mut lowzero = [0xFFu8; 20];
+        lowzero[0] = 0;
+        lowzero[1] = 0;
+        vec![[0u8; 20], one, [0xFF; 20], top, lowzero]
+    };
+    let k32: Vec<[u8; 32]> = vec![le32_from_u64(1), le32_from_u64(2), n_plus(-1), n_plus(1), [0xFF; 32], {
+        let mut t = [0u8; 32];
+        t[31] = 0x80;
+        t
+    }];
+    let e32: Vec<[u8; 32]> = vec![[0u8; 32], le32_from_u64(1), le32_from_u64(2), [0xFF; 32], n_plus(-1)];
+    let mut boundary = 0u64;
+    for pk in &k32 {
+        for v in &k32 {
+            for u in &h20 {
+                for e in &e32 {
+                    // server side: pk = A, v, u, b = e
+                    let want = srp::server_s(&U::from_le_bytes(pk), &U::from_le_bytes(v), &U::from_le_bytes(u), &U::from_le_bytes(e), &n).to_le_padded::<32>();
+                    match catch(|| verif_hooks::server_s(*pk, *v, *u, *e)) {
+                        Ok(Some(got)) => {
+                            if got != want {
+                                viol(report, "server-S-boundary-operands", json!({"A": hex(pk), "v": hex(v), "u": hex(u), "b": hex(e)}), format!("server S = {} reference {}", hex(&got), hex(&want)));
+                            }
+                        }
+                        Ok(None) => {}
+                        Err(m) => viol(report, "server-S-panic", json!({"A": hex(pk), "v": hex(v), "u": hex(u), "b": hex(e)}), format!("calculate_S panicked: {m}")),
+                    }
+                    boundary += 1;
+                }
+                for x in &h20 {
+                    for e in [&e32[0], &e32[1], &e32[3]] {
+                        // client side: pk = B, x, a = e, u
+                        let want = srp::client_s(&U::from_le_bytes(pk), &U::from_le_bytes(x), &U::from_le_bytes(e), &U::from_le_bytes(u), 7, &n).to_le_padded::<32>();
+                        match catch(|| verif_hooks::client_s(*pk, *x, *e, *u, 7, N_LE)) {
+                            Ok(Some(got)) => {
+                                if got != want {
+                                    viol(report, "client-S-boundary-operands", json!({"B": hex(pk), "x": hex(x), "a": hex(e), "u": hex(u)}), format!("client S = {} reference {}", hex(&got), hex(&want)));
+                                }
+                            }
+                            Ok(None) => {}
+                            Err(m) => viol(report, "client-S-panic", json!({"B": hex(pk), "x": hex(x), "a": hex(e), "u": hex(u)}), format!("calculate_client_S panicked: {m}")),
+                        }
+                        boundary += 1;
+                    }
+                }
+            }
+        }
+    }
+    cases.fetch_add(boundary, Ordering::Relaxed);
+    report.count("seam_boundary_operand_cases", boundary);
     report.count("seam_cases", cases.load(Ordering::Relaxed));
     report.count("seam_zero_byte_shapes", shapes_done.load(Ordering::Relaxed));
     report.require("seam_client_negative_base_cases");
@@ -300,6 +357,16 @@ pub fn witness_search(seed: u64) {
     use crate::logins::in_class;
     let n = srp::n_builtin();
     let mut found: std::collections::BTreeMap<String, serde_json::Value> = Default::default();
+    // keep what an earlier search already found (the search is deterministic, this only saves time)
+    if let Ok(t) = std::fs::read_to_string(crate::logins::witnesses_path()) {
+        if let Ok(serde_json::Value::Array(a)) = serde_json::from_str::<serde_json::Value>(&t) {
+            for w in a {
+                if let Some(c) = w["class"].as_str() {
+                    found.insert(c.to_string(), w.clone());
+                }
+            }
+        }
+    }
     let user = "alice";
     let pass = "password123";
     let (un, pn) = (refmodel::misc::normalize(user).unwrap(), refmodel::misc::normalize(pass).unwrap());
@@ -394,6 +461,38 @@ pub fn witness_search(seed: u64) {
             };
             found_m.lock().unwrap().insert(cls.to_string(), w);
         }
+    }
+    // x with two zero bytes at either end: vary the salt (two SHA-1 per candidate)
+    for (cls, lo) in [("x-low-zero-2", true), ("x-high-zero-2", false)] {
+        let hit = (0..(1u64 << 22)).into_par_iter().find_any(|i| {
+            let s = refmodel::ctr_array::<32>(seed, &format!("w4-{i}"));
+            let x = srp::x_bytes(&un, &pn, &s);
+            if lo { x[0] == 0 && x[1] == 0 } else { x[19] == 0 && x[18] == 0 }
+        });
+        if let Some(i) = hit {
+            let s = refmodel::ctr_array::<32>(seed, &format!("w4-{i}"));
+            found_m.lock().unwrap().insert(cls.to_string(), json!({"class": cls, "user": user, "pass": pass, "salt": hex(&s), "b": hex(&refmodel::ctr_array::<32>(seed, "w4-b")), "a": hex(&refmodel::ctr_array::<32>(seed, "w4-a"))}));
+        }
+    }
+    // u = H(A|B) with two zero bytes at either end: a = a0 + i, A_i = A_0 * g^i (one modmul + one SHA-1 per candidate)
+    {
+        let b_priv = refmodel::ctr_array::<32>(seed, "w5-b");
+        let b_pub_le = srp::server_public(&v, &U::from_le_bytes(&b_priv), 7, &n).to_le_padded::<32>();
+        let a0 = U::from_le_bytes(&refmodel::ctr_array::<32>(seed, "w5-a0")).rem(&n);
+        let blocks: Vec<u64> = (0..64).collect();
+        blocks.par_iter().for_each(|&blk| {
+            let start = a0.add(&U::from_u64(blk << 16));
+            let mut a_pub = step_g.modpow(&start, &n);
+            for i in 0..(1u64 << 16) {
+                let u = srp::u_bytes(&a_pub.to_le_padded::<32>(), &b_pub_le);
+                let cls = if u[0] == 0 && u[1] == 0 { Some("u-low-zero-2") } else if u[19] == 0 && u[18] == 0 { Some("u-high-zero-2") } else { None };
+                if let Some(c) = cls {
+                    let a_val = a0.add(&U::from_u64((blk << 16) + i));
+                    found_m.lock().unwrap().entry(c.to_string()).or_insert(json!({"class": c, "user": user, "pass": pass, "salt": hex(&salt), "b": hex(&b_priv), "a": hex(&a_val.to_le_padded::<32>())}));
+                }
+                a_pub = a_pub.mulmod(&step_g, &n);
+            }
+        });
     }
     drop(found_m);
     let list: Vec<serde_json::Value> = found.values().cloned().collect();
